@@ -11,10 +11,10 @@ from refs import ref_ms as R
 from sievelib import managesieve as MS
 
 LINES = [b"keep;", b"OK", b'NO "x"', b"BYE", b"{5}", b"{5+}", b'"a" ACTIVE', b"", b"# \xc3\xa9t\xc3\xa9", b'"quoted"',
-         b"OK (WARNINGS) {3}", b"x ACTIVE", "a\x0bb\x0cc\x1cd\x85e\u2028f".encode("utf-8")]
+         b"OK (WARNINGS) {3}", b"x ACTIVE", "a\x0bb\x0cc\x1cd\x85e\u2028f".encode("utf-8"), b"trail\\"]
 NLINES = len(LINES)
 NAMES = [b"main", b"ACTIVE", b'a" ACTIVE', b"{5}", b"OK", b'q"uo\\te', b"\xc3\xa9t\xc3\xa9", b"two words", b'NO "x"', b"x active",
-         b"{3+}", b'"']
+         b"{3+}", b'"', b"back\\"]
 NNAMES = len(NAMES)
 MODE = os.environ.get("C17_MODE", "body")
 L0LO = int(os.environ.get("C17_LO", "0"))
